@@ -301,7 +301,12 @@ def main(argv=None):
             if not msgs:
                 print(f"ERROR candidate for known finding {name} did not reproduce in a fresh process: {path}", file=sys.stderr)
                 sys.exit(2)
-    for c in unknown[:MAX_REPORTED]:
+    not_reproduced = []
+    tried = 0
+    for c in unknown:
+        if len(reported) >= MAX_REPORTED or tried >= 3 * MAX_REPORTED:
+            break
+        tried += 1
         if args.no_confirm:
             os.makedirs(os.path.join(REPLAY_DIR, prop), exist_ok=True)
             path = os.path.join(REPLAY_DIR, prop, case_key(c) + ".json")
@@ -311,9 +316,17 @@ def main(argv=None):
         else:
             path, msgs = confirm(prop, c)
             if not msgs:
-                print(f"ERROR candidate did not reproduce in a fresh process (engine nondeterminism): {path}", file=sys.stderr)
-                sys.exit(2)
+                # never reported as a violation; remembered so that "nothing reproduced" is an engine error
+                not_reproduced.append(path)
+                continue
         reported.append((path, c, msgs))
+    if not_reproduced and not reported:
+        for path in not_reproduced[:5]:
+            print(f"ERROR candidate did not reproduce in a fresh process (state carried between cases in a worker, or engine nondeterminism): {path}", file=sys.stderr)
+        sys.exit(2)
+    if not_reproduced:
+        print(f"NOTE {len(not_reproduced)} candidate(s) seen by a worker did not reproduce in a fresh process and are not reported (process-wide state carried between cases?)", file=sys.stderr)
+        unknown = [c for p_, c, m_ in reported]
 
     wall = time.time() - t0
     exhaustive = (not capped) and args.limit is None and done_tasks == ntasks_total
